@@ -12,21 +12,21 @@ TRUST = ("CrossHair 0.0.110 path exhaustion and z3; provider contract A1-A4 (DES
          "semantics (vt/oracle.py, written from the language docs); definitions limited to the catalogue in vt/defs.py and the stated event bounds")
 
 CLAIMED = {
-    "C01": ("model_checking", "Every offer justified by the reference token game (incl. split instances), nothing due lost, executed multiset equals the definition's, for every report order / outcome / condition-bit assignment within the bound on 14 catalogue definitions (sequence, fork, decision, joins, split routes, nested split + join, loops, parallel edges, Jinja), also with offered tasks started late and actions reported requested before running.", "0, 6"),
+    "C01": ("model_checking", "Every offer justified by the reference token game (incl. split instances), nothing due lost, executed multiset equals the definition's, for every report order / outcome / condition-bit assignment within the bound on 16 catalogue definitions (sequence, fork, decision, joins, split routes, nested split + join, loops, a loop that leaves into a multi-referenced task on every iteration, sibling transitions reading each other's variables, parallel edges, Jinja), also with offered tasks started late and actions reported requested before running.", "0, 6"),
     "C02": ("model_checking", "After every API call the reported status is compared with the provider-side in-flight set, the task records and the reference failure rules, over all histories within the bound incl. one pause or cancel at any boundary, a resume before the workflow has come to rest, and actions that report paused/pending (A5 harness); E1: four lemmas on the real workflow state machine from every abstract pre-state.", "0, 6"),
     "C03": ("model_checking", "At every quiescent point (nothing in flight, nothing on offer) the status is a resting status, over all bounded histories with pause/cancel/resume, incl. with-items, retry, joins, loop.", "6"),
-    "C04": ("model_checking", "After the first terminal status: no offers except documented clean-up tasks (also when an offered task is started late), status constant, late reports absorbed, and a status request of any kind at any boundary that is rejected leaves serialize() byte-identical.", "6"),
-    "C05": ("model_checking", "Twin conductors driven by the same symbolic decisions, one persisted+restored at every subset of the boundaries (small definitions) or at any single boundary (larger ones): identical offers at every step, identical final persisted form, output, errors, status; restore is a serialisation fixpoint.", "6"),
+    "C04": ("model_checking", "After the first terminal status: no offers except documented clean-up tasks (also when an offered task is started late), status constant, late reports absorbed (incl. the late answer of a pending action whose retry condition cannot be evaluated), and a status request of any kind at any boundary that is rejected leaves serialize() byte-identical.", "6"),
+    "C05": ("model_checking", "Twin conductors driven by the same symbolic decisions, one persisted+restored at every subset of the boundaries (small definitions) or at any single boundary (larger ones), also right after construction (with input/vars that fail to render): identical offers at every step, identical final persisted form, output, errors, status; restore is a serialisation fixpoint.", "6"),
     "C06": ("model_checking", "The context of every offered task equals the reference causal context (bindings with publish ids and the ids their publisher had received) for every report order and outcome assignment; output variables with a causally unique final binding are compared too.", "6"),
-    "C07": ("model_checking", "E1: the real get_inbound_criteria_status decided for every barrier N (unbounded integer or all) over three inbound tasks; E2c: joins start only when the reference barrier is satisfied, once per satisfaction, and an unreachable partially satisfied join fails the workflow, over all bounded histories incl. a pause.", "6"),
+    "C07": ("model_checking", "E1: the real get_inbound_criteria_status decided for every barrier N (unbounded integer or all) over three inbound tasks; E2c (incl. inbound transitions guarded by truthy/falsy non-boolean values): joins start only when the reference barrier is satisfied, once per satisfaction, and an unreachable partially satisfied join fails the workflow, over all bounded histories incl. a pause.", "6"),
     "C08": ("model_checking", "Order twin: a symbolic report order against the canonical order with outcomes fixed per task; final status always equal; when succeeded also executed multiset, published values and every output variable not written by two concurrent branches.", "6"),
-    "C09": ("model_checking", "Pause twin: pause at any boundary, resume at rest, against the same completion order without the pause: equal status, executed tasks, errors, output; nothing offered while pausing/paused; paused exactly at the last report.", "6"),
-    "C10": ("model_checking", "After a cancel request at any boundary (from running, pausing, paused, resuming; optional earlier pause): nothing offered, canceling while in flight, canceled at the last report whatever the outcomes, output still rendered.", "6"),
+    "C09": ("model_checking", "Pause twin: pause at any boundary, resume at rest, against the same completion order without the pause: equal status, executed tasks, errors, output; nothing offered while pausing/paused; paused exactly at the last report (incl. a multi-referenced task live on two routes).", "6"),
+    "C10": ("model_checking", "After a cancel request at any boundary (from running, pausing, paused, resuming; optional earlier pause): nothing offered, canceling while in flight, canceled at the last report whatever the outcomes (incl. with-items actions that report canceling/pausing first), output still rendered.", "6"),
     "C11": ("model_checking", "Fault-injecting evaluator: at each of 13 expression-bearing positions, in YAQL and Jinja (also for a pending action answered while the workflow is paused or canceled), the first or second evaluation raises the evaluator's exception or returns a wrong type, at any point of a bounded history and with a persist/restore before the first call: nothing escapes, an error entry names the task/transition, the workflow is failed, nothing further is offered.", "6"),
-    "C12": ("model_checking", "E1: the real _evaluate_task_actions decided for every concurrency value (unbounded integer or absent) over 4 items with arbitrary prefix-closed statuses; E2c: item counts 0-4, concurrency absent/literal/expression/<=0, all item outcomes, report orders and pause/cancel positions.", "6"),
+    "C12": ("model_checking", "E1: the real _evaluate_task_actions decided for every concurrency value (unbounded integer or absent) over 4 items with arbitrary prefix-closed statuses; E2c: item counts 0-4, concurrency absent/literal/expression/<=0, all item outcomes, report orders and pause/cancel positions; a with-items task started once per loop iteration on a new route.", "6"),
     "C13": ("model_checking", "E1: the real _evaluate_task_retry decided for all integers tally/count; E2c: retry spec and retry command, counts from expressions, in a branch, on a split task, in a loop, on with-items, with actions reported requested before running: at most count+1 executions per visit, re-offer only after a failed attempt with the configured delay, a retried attempt decides nothing.", "6"),
-    "C14": ("exploration", "The solver enumerates every definition over three tasks with one transition per task (any target subset incl. self loops, join flags, all 6 declaration orders: 24,576 definitions) plus attribute/engine-command/retry/nested-split/cycle skeletons with join values all/0/1/2/3; each accepted one is composed by the real composer and compared with an independent reachability construction (nodes, edges with criteria and ref, roots, barriers, retry attributes, order invariance, serialisation fixpoint incl. edge keys). Exhaustive within the family, no generalisation beyond it.", "6"),
-    "C15": ("exploration", "Forward: every inspection-clean definition of a three-task family is conducted under all outcome assignments with 'no API call raises'. Converse: single-fault mutants (13 expression sites x documented reference forms x 2 languages, self-referencing assignments, malformed expressions, undefined targets, reserved names, missing start task) must each be reported by inspect().", "6"),
+    "C14": ("exploration", "The solver enumerates every definition over three tasks with one transition per task (any target subset incl. self loops, join flags, all 6 declaration orders: 24,576 definitions) plus attribute/engine-command/retry/nested-split/cycle skeletons with join values all/0/1/2/3; each accepted one is composed by the real composer and compared with an independent reachability construction (nodes, edges with criteria and ref, roots, barriers, retry attributes, order invariance, serialisation fixpoint incl. edge keys); E2c: the working and the persisted graph of a conductor equal the composed graph after every call and restore of bounded histories on six definitions (retry policies, joins, parallel edges). Exhaustive within the family, no generalisation beyond it.", "6"),
+    "C15": ("exploration", "Forward: every inspection-clean definition of a three-task family is conducted under all outcome assignments with 'no API call raises'. Converse: single-fault mutants (13 expression sites x documented reference forms x 2 languages, self-referencing assignments, name=value-shaped expressions, malformed expressions, undefined targets incl. names listed after an engine command, reserved names, missing start task) must each be reported by inspect().", "6"),
     "C16": ("other", "E1 lemmas with symbolic values through the real evaluators (all integers, booleans, None, nested containers; every documented YAQL form, the Jinja attribute form), ctx() hides every double-underscore name over a small alphabet, merge_dicts; an E3 z3 lemma on the live delimiter regexes; and a solver-enumerated catalogue of 44 awkward JSON values plus 10 ==-equal re-publish pairs through the whole data path in both languages with persistence between steps.", "6"),
     "C17": ("model_checking", "Rerun twin: after any bounded failing history, a default or explicit rerun request (request bits, reset_items, a non-existent task) is issued; rejected iff a requested execution does not exist and then leaves the persisted form unchanged; accepted => resuming; only requested/downstream/still-due work is re-executed; with the re-executed actions succeeding, status (and output when succeeded) equal the clean twin.", "6"),
     "C18": ("model_checking", "After every API call the persisted state is compared with the previous one: contexts, routes and records are prefix-extended; a started record keeps its input contexts and predecessors; a decided record keeps status and decisions; incl. retries, loops, split routes, dict-valued variables, a with-items task revisited through a loop, explicit reruns and a rerun followed by a late start.", "0, 6"),
